@@ -105,9 +105,70 @@ def run(ctx):
                False, 'residue identity decision in %s.%s is built from %s only: equally numbered '
                'residues of different chains (e.g. of two structures in one file) are confused'
                % (fid6[0], fid6[1], sorted(comps6)), mod6, node6)
+    # the printed label of a hetero group carries no residue number (two copies
+    # of a ligand, or two ions, in one chain share all their labels): a table
+    # keyed by group labels, or a list of labels that stands for a set of groups,
+    # confuses them however far apart they are.  Groups are told apart by
+    # Group.__eq__ (label and residue number) or by identity.
+    het = [c for c, _n, _m in labels6.defs.get('label:hetero', []) if c]
+    het_has_number = bool(het) and all('number' in c for c in het)
+    keyed = []
+    for m7, q7, f7 in prog.all_funcs():
+        for node in c06.walk_with_lambdas(f7):
+            key_exprs = []
+            if isinstance(node, ast.DictComp):
+                key_exprs.append(node.key)
+            if isinstance(node, ast.SetComp):
+                key_exprs.append(node.elt)
+            if isinstance(node, ast.Subscript) and isinstance(node.ctx, ast.Store):
+                key_exprs.append(node.slice)
+            if isinstance(node, ast.Call) and last_attr(node) in ('append', 'add', 'setdefault') and node.args:
+                key_exprs.append(node.args[0])
+            for k in key_exprs:
+                if isinstance(k, ast.Attribute) and k.attr == 'label' and not het_has_number:
+                    keyed.append((m7, q7, node))
+    seen7 = {}
+    for m7, q7, node in keyed:
+        k7 = 'label-stands-for-group:%s.%s:%s' % (m7.name, q7, anorm(node, m7.funcs[q7])[:60])
+        seen7[k7] = seen7.get(k7, 0) + 1
+        if seen7[k7] > 1:
+            k7 += '#%d' % seen7[k7]
+        ctx.ob('C05.R6', k7, False,
+               '%s.%s collects or keys groups by their printed label (%s); hetero labels have no residue '
+               'number, so a second copy of a ligand or ion in the chain - at any distance - is taken '
+               'for the first' % (m7.name, q7, norm(node)[:70]), m7, node)
+    ctx.ob('C05.R6', 'label-stands-for-group:sites', True,
+           '%d sites where a group label is stored as a key or list element (hetero label has the '
+           'residue number: %s)' % (len(keyed), het_has_number), prog.mod('group'), prog.mod('group').tree)
     ctx.ob('C05.R6', 'identity-decisions:examined', n_id >= 6,
            '%d residue-identity decisions examined, all include the chain' % n_id,
            prog.mod('conformation_container'), prog.mod('conformation_container').tree)
+
+    # a per-system quantity is computed from that system alone: the common charge
+    # centre (parameter common_charge_centre) written into the groups of one
+    # covalently coupled system is a function of that system's groups, not of
+    # every coupled group of the conformation (a ligand 1200 A away)
+    ccm5 = prog.mod('conformation_container')
+    sccc = ccm5.func('ConformationContainer.set_common_charge_centres')
+    can5 = canon(sccc)
+    sys_loops = [n for n in walk_no_nested(sccc) if isinstance(n, ast.For) and n in sccc.body]
+    okc, whyc = False, 'no loop over coupled systems'
+    if len(sys_loops) == 1 and isinstance(sys_loops[0].target, ast.Name):
+        lp = sys_loops[0]
+        sys_text = 'each(%s)' % can5.text(lp.iter)
+        stores = [st for st in ast.walk(lp) if isinstance(st, ast.Assign)
+                  and any(isinstance(x, ast.Attribute) and x.attr in ('x', 'y', 'z')
+                          and isinstance(x.ctx, ast.Store) for t in st.targets for x in ast.walk(t))]
+        okc = bool(stores)
+        whyc = '%d stores' % len(stores)
+        for st in stores:
+            t = can5.text(st.value, define=True).replace(sys_text, 'SYSTEM')
+            if 'self.' in t or 'SYSTEM' not in t:
+                okc = False
+                whyc = 'the stored centre reads %s' % t[:120]
+    ctx.ob('C05.R6', 'common-charge-centre:from-own-system-only', okc,
+           'the centre written into the groups of a coupled system is computed from the groups of '
+           'that system only (%s)' % whyc, ccm5, sys_loops[0] if sys_loops else sccc)
 
     # ------------------------------------------------------------------ R1
     n_loops = 0
